@@ -18,6 +18,24 @@ CLAIMED = {
         "exhaustively with Python); sparseconverter identity.",
         "Lean 4 proof over source-generated definitions + differential correspondence",
         "DESIGN.md §7 C13"),
+    "C08": (
+        "Machine-checked proof that the block loops of both pipelines (arithmetic regenerated from the source) "
+        "write every output entry i in [0,n) with f(peaks[i]) for every number of peaks, every buffer count >= 1 "
+        "and every per-crop function f, hence independence of buffer size, peak order, duplicates and other peaks; "
+        "get_buf_count bounds and byte-limit theorem on the generated definition; exhaustive schedule correspondence.",
+        "Lean kernel + standard axioms; translator; the per-crop pipeline is abstract in the theorems: that batched "
+        "FFT / per-crop minimum really act per crop (A-FFT) is covered by the differential oracle only.",
+        "Lean 4 proof (induction over blocks) over source-generated arithmetic + differential correspondence",
+        "DESIGN.md §7 C08"),
+    "C09": (
+        "Machine-checked proof that the outputs of a call do not depend on the state (crop buffers, output arrays) "
+        "left by any history of earlier calls, for both cropping back-ends and both pipelines, by reduction to the "
+        "C13 window theorems (every buffer cell is defined by the crop) and the C08 block-loop theorem; object purity "
+        "(patterns, matchers, batch entry points) by differential histories.",
+        "Lean kernel + standard axioms; translator; EvalLocal (the evaluation reads only its own crop) and purity of "
+        "pattern/matcher objects are assumptions of the theorems exercised by the oracle only.",
+        "Lean 4 proof (state-independence + induction over history) + differential histories",
+        "DESIGN.md §7 C09"),
 }
 
 NOT_YET = {}
